@@ -6,6 +6,9 @@ pub proof fn names_framing()
         Header::_CONTENT_RANGE@ == "Content-Range"@,
         Header::_RANGE@ == "Range"@,
         Range::BYTES@ == "bytes"@,
+        Range::MULTIPART@ == "multipart"@, Range::BYTERANGES@ == "byteranges"@, Range::BOUNDARY@ == "boundary"@,
+        Range::STRING_SEPARATOR@ == "String_separator"@,
+        Range::MULTIPART_BYTERANGES_CONTENT_TYPE@ == "multipart/byteranges; boundary=String_separator"@,
         METHOD.head@ == "HEAD"@, METHOD.options@ == "OPTIONS"@,
 {
 }
